@@ -5,11 +5,11 @@ go 1.22.11
 require (
 	github.com/in-toto/in-toto-golang v0.0.0
 	github.com/secure-systems-lab/go-securesystemslib v0.9.0
+	github.com/shibumi/go-pathspec v1.3.0
 )
 
 require (
 	github.com/in-toto/attestation v1.1.1 // indirect
-	github.com/shibumi/go-pathspec v1.3.0 // indirect
 	golang.org/x/crypto v0.32.0 // indirect
 	golang.org/x/sys v0.30.0 // indirect
 	google.golang.org/protobuf v1.36.4 // indirect
